@@ -540,7 +540,7 @@ impl World for Vw {
                 let mut am = if bal == 0 { vec![1] } else { vec![1, 2, bal] };
                 if self.thorough {
                     am.push(0);
-                    am.push(bal + 1);
+                    am.push(bal.saturating_add(1));
                 }
                 let am = dedup(am);
                 for to in 0..N {
@@ -665,29 +665,29 @@ fn main() {
             use Flavour::*;
             let plan: Vec<(Flavour, usize, usize, u64)> = if th {
                 vec![
-                    (Wrapper, 0, 5, 150),
+                    (Wrapper, 0, 5, 120),
                     (Wrapper, 1, 4, 150),
-                    (Wrapper, 2, 3, 20),
-                    (WrapperSpender, 0, 4, 30),
-                    (WrapperSpender, 1, 3, 30),
-                    (Example, 0, 5, 60),
-                    (Example, 1, 3, 30),
-                    (Nft, 0, 6, 100),
-                    (Nft, 1, 4, 60),
-                    (NftSeq, 0, 4, 20),
-                    (NftSeq, 1, 3, 30),
+                    (Wrapper, 2, 3, 10),
+                    (WrapperSpender, 0, 4, 15),
+                    (WrapperSpender, 1, 3, 20),
+                    (Example, 0, 4, 20),
+                    (Example, 1, 3, 15),
+                    (Nft, 0, 6, 130),
+                    (Nft, 1, 4, 70),
+                    (NftSeq, 0, 4, 8),
+                    (NftSeq, 1, 3, 10),
                 ]
             } else {
                 vec![
-                    (Wrapper, 0, 4, 10),
-                    (Wrapper, 1, 3, 10),
-                    (WrapperSpender, 0, 3, 4),
+                    (Wrapper, 0, 4, 8),
+                    (Wrapper, 1, 3, 9),
+                    (WrapperSpender, 0, 3, 3),
                     (WrapperSpender, 1, 2, 3),
-                    (Example, 0, 3, 4),
+                    (Example, 0, 3, 3),
                     (Example, 1, 2, 3),
-                    (Nft, 0, 4, 6),
-                    (Nft, 1, 3, 6),
-                    (NftSeq, 0, 3, 3),
+                    (Nft, 0, 4, 5),
+                    (Nft, 1, 3, 5),
+                    (NftSeq, 0, 3, 2),
                 ]
             };
             let plan = if let Ok(c) = std::env::var("C13_CAL") {
